@@ -34,23 +34,29 @@ class Batch:
     def __init__(self, ctx):
         self.ctx = ctx
         self.items = []
+        self.other = {}
 
-    def add(self, line, expect, site, input_class, what, detail=None, on_mismatch=None):
-        self.items.append((line, expect, site, input_class, what, detail, on_mismatch))
+    def add(self, line, expect, site, input_class, what, detail=None, on_mismatch=None, driver='energydriver'):
+        (self.items if driver == 'energydriver' else self.other.setdefault(driver, [])).append(
+            (line, expect, site, input_class, what, detail, on_mismatch))
 
     def flush(self):
-        if not self.items:
+        for driver, items in [('energydriver', self.items)] + sorted((self.other or {}).items()):
+            self.flush_one(driver, items)
+        self.items, self.other = [], {}
+
+    def flush_one(self, driver, items):
+        if not items:
             return
-        got = run_driver('energydriver', [it[0] for it in self.items])
-        self.ctx.corr_lines += len(self.items)
-        for i, (line, expect, site, ic, what, detail, on_mismatch) in enumerate(self.items):
+        got = run_driver(driver, [it[0] for it in items])
+        self.ctx.corr_lines += len(items)
+        for i, (line, expect, site, ic, what, detail, on_mismatch) in enumerate(items):
             g = got[i] if i < len(got) else 'MISSING'
             if g != expect:
                 if on_mismatch is not None and on_mismatch(g):
                     continue
                 self.ctx.fail('correspondence', site, ic, f'{what}: implementation `{expect}` model `{g}`',
                               detail=dict(line=line, **(detail or {})))
-        self.items = []
 
 
 # D33 (DESIGN.md): `energy([])` on a variable-free model returns 0, not the offset.  `as_samples([])` normalises the empty
@@ -1011,22 +1017,95 @@ def check_reads(ctx, R, target, site, ic, expect=None):
     return ref
 
 
+def expr_state(c, t):
+    """what expression `t` of CQM `c` reports, in model indices: (vars, positional linear, iter_quadratic triples, offset)"""
+    mv = list(c.variables)
+    ev = list(t.variables)
+    return ([mv.index(v) for v in ev], [F(t.get_linear(v)) for v in ev],
+            [(mv.index(u), mv.index(v), F(b)) for u, v, b in t.iter_quadratic()], F(t.offset))
+
+
 def case_cqm_history(ctx, r, B):
     """one CQM, expressions in private variable orders, 1-5 in-place operations; after every step every expression: all read
-    accessors give one polynomial, it is the one the operations applied define, and energies is its value"""
+    accessors give one polynomial, it is the one the operations applied define, and energies is its value.
+    The whole history runs in a forked copy first: an assertion / segfault of the code under test is reported as a crash
+    with the script up to the fatal call instead of killing the harness."""
+    dead = HIST.canary(lambda: cqm_history_body(ctx, r, Batch(ctx), HIST.LoggedRecipe()))
+    if dead is not None:
+        sig, lines = dead
+        last = lines[-1] if lines else '?'
+        m = __import__('re').search(r'\.(\w+)\(', last)
+        ctx.tick('history: interpreter killed in the forked copy')
+        ctx.case(('CQM history', 'killed', tuple(lines)), nontrivial=True)
+        ctx.fail('crash', 'CQM.' + (m.group(1) if m else 'history'),
+                 'in-place history on one CQM whose expressions list their variables in a private order',
+                 f'the interpreter was killed by signal {sig} in `{last}` (failed assertion / memory error in the code under test)',
+                 repro='\n'.join(list(HIST.HEADER) + lines) + '\n', detail=dict(script=lines))
+        for _ in range(40):      # the generator state of this process is untouched: move on
+            r.random()
+        return
     R = Recipe()
+    try:
+        cqm_history_body(ctx, r, B, R)
+    except Exception as e:  # noqa   a read accessor of a model the public mutators produced must not raise
+        if not R.ns.get('c'):
+            raise
+        ctx.fail('property', 'CQM expression read accessors', 'in-place history on one CQM whose expressions list their variables in a private order; '
+                 'reading the model raised', f'{type(e).__name__}: {e} while reading variables / coefficients / energies after `{R.lines[-1]}`',
+                 repro=R.script(ACC.repro_src('c.objective') + 'for k_ in c.constraints:\n    t = c.constraints[k_].lhs\n    list(t.variables)\n'
+                                '    bad, ref = disagreements(t)\n    assert not bad, bad\n'))
+
+
+def cqm_history_body(ctx, r, B, R):
     st = HIST.build(r, R)
     nsteps = r.randint(1, 5)
     what, facts = 'fresh model', {}
+    pending = []        # (target, driver line prefix) captured right before a single-variable removal
+
+    def before(kind, v, a, only):
+        c = R['c']
+        n = len(c.variables)
+        g = list(c.variables).index(v)
+        op = f'R:{g}' if kind == 'R' else f'V:{g}' if kind == 'V' else f'F:{g}:{rat(F(a))}'
+        for target in ([only] if only else st['targets']):
+            vs, lin, quad, off = expr_state(c, R.ev(target))
+            qt = ','.join(f'{u}:{w}:{rat(b)}' for u, w, b in quad) or '-'
+            pending.append((target, f'exprstep {n} {",".join(map(str, vs)) or "-"} {rats(lin)} {qt} {rat(off)} {op}'))
+
     for k in range(nsteps + 1):
         c = R['c']
         mv = list(c.variables)
-        vts = st['vts']
+        vts = st['vts'] = {v: c.vartype(v).name for v in mv}
+        fact_txt = ''.join(f'; {f}' for f, on in sorted(facts.items()) if on)
+        # (i) the model of the step just executed, on the state the expression reported before it
+        x = {l: r.choice(domain(vts[l])) for l in mv}
+        for target, prefix in pending:
+            t = R.ev(target)
+            if not exact_in_double(t, x):
+                continue
+            site = 'CQM.objective' if target == 'c.objective' else 'CQM.constraint.lhs'
+            lin = [F(t.get_linear(v)) for v in mv]
+            quad = []
+            for gi, u in enumerate(mv):
+                for hi in range(gi, len(mv)):
+                    try:
+                        b = F(t.get_quadratic(u, mv[hi], default=0))
+                    except ValueError:
+                        b = 0
+                    if b:
+                        quad.append((gi, hi, b))
+            pval = F(t.offset) + sum(b * F(x[mv[g]]) for g, b in enumerate(lin)) + sum(b * F(x[mv[g]]) * F(x[mv[h]]) for g, h, b in quad)
+            expect = (f'vars={",".join(str(mv.index(v)) for v in t.variables) or "-"} lin={rats(lin)} '
+                      f'quad={",".join(f"{g}:{h}:{rat(b)}" for g, h, b in quad) or "-"} e={rat(F(t.energy(x)))} p={rat(pval)}')
+            B.add(f'{prefix} {len(mv)} {rats([x[l] for l in mv])}', expect, site + ' read accessors',
+                  f'after {what}; expression written in {st["styles"][target]} order{fact_txt}',
+                  f'{target} after the step: variables, label readings, energy', detail=dict(model=R.lines[4:]), driver='exprreadsdriver')
+        pending.clear()
         for target in st['targets']:
             site = 'CQM.objective' if target == 'c.objective' else 'CQM.constraint.lhs'
             style = st['styles'][target]
-            ic = f'after {what}; expression written in {style} order' + ''.join(f'; {f}' for f, on in sorted(facts.items()) if on)
-            ctx.tick(f'history: {what}' + ''.join(f'; {f}' for f, on in sorted(facts.items()) if on))
+            ic = f'after {what}; expression written in {style} order{fact_txt}'
+            ctx.tick(f'history: {what}{fact_txt}')
             refx = st['refs'][target]
             t = R.ev(target)
             ev = list(t.variables)
@@ -1072,12 +1151,13 @@ def case_cqm_history(ctx, r, B):
             break
         res = None
         for _ in range(6):
-            res = HIST.step(r, R, st)
+            res = HIST.step(r, R, st, before=before)
             if res is not None:
                 break
         if res is None:
             break
         what, facts = res
+
 
 # ------------------------------------------------------------------------------------------ label -> column resolution
 
